@@ -101,6 +101,8 @@ class C04(RecorderProp):
             'call; distinct = distinct canonical case')
     OPTS = dict(ALL_OPTS, play_ratio=0.1, cassettes=['memory', 'memory', 'file', 's3', 'async'], enabled_ratio=0.8)
     N = {'quick': 3000, 'thorough': 30000}
+    # (only a tree on which thread schedules block comes near it: each blocked schedule costs a scheduler watchdog period)
+    TIME_BUDGET = {'quick': 900, 'thorough': 6000}
 
     THREAD_SCENARIOS = {'quick': 6, 'thorough': 40}
     THREAD_PREEMPTIONS = {'quick': 2, 'thorough': 2}
